@@ -11,6 +11,7 @@ import (
 
 	"github.com/smart-core-os/sc-api/go/traits"
 	"github.com/smart-core-os/sc-api/go/types"
+	"github.com/smart-core-os/sc-golang/pkg/masks"
 	"github.com/smart-core-os/sc-golang/pkg/resource"
 )
 
@@ -81,7 +82,7 @@ func (m *ModelServer) ListHails(_ context.Context, request *traits.ListHailsRequ
 	lastKey := pageToken.GetLastResourceName() // the key() of the last item we sent
 	pageSize := capPageSize(int(request.GetPageSize()))
 
-	sortedItems := m.model.ListHails(resource.WithReadMask(request.ReadMask))
+	sortedItems := m.model.ListHails()
 	nextIndex := 0
 	if lastKey != "" {
 		nextIndex = sort.Search(len(sortedItems), func(i int) bool {
@@ -107,7 +108,11 @@ func (m *ModelServer) ListHails(_ context.Context, request *traits.ListHailsRequ
 	if err != nil {
 		return nil, err
 	}
-	result.Hails = sortedItems[nextIndex:upperBound]
+	// the read mask is applied to the page, not before paging: the token is built from the items' keys
+	filter := masks.NewResponseFilter(masks.WithFieldMask(request.ReadMask))
+	for _, item := range sortedItems[nextIndex:upperBound] {
+		result.Hails = append(result.Hails, filter.FilterClone(item).(*traits.Hail))
+	}
 	return result, nil
 }
 
